@@ -153,6 +153,26 @@ def dumps(res, ctx, rng):
                           f'{leaked[0][1]!r}', dict(case, removed=sorted(removed)))
             continue
         res.count('reduced_tables_checked')
+        # the caller's table object edited in place between requests: each request honours the table as it is then
+        t = dict(bundled)
+        try:
+            a = front(data, t, 'traces')
+            for k in removed:
+                t.pop(k, None)
+            b = front(data, t, 'traces')
+            for k in removed:
+                if k in bundled:
+                    t[k] = bundled[k]
+            c = front(data, t, 'traces')
+        except Exception as x:
+            res.violation(f'c19-edited-table-raises-{core.exc_name(x)}', f'{x!r}', dict(case, removed=sorted(removed)))
+            continue
+        if a != base_traces or b != trs or c != base_traces:
+            res.violation('c19-edited-table-not-honoured', f'one table object edited in place between requests: request with '
+                          f'{len(removed)} ids removed gives {len(b)} traces (a fresh table gives {len(trs)}), request after '
+                          f'restoring them gives {len(c)} (bundled: {len(base_traces)})', dict(case, removed=sorted(removed)))
+            continue
+        res.count('in_place_edits_checked')
         # (c) injective re-assignment of ids (real-fault ids are hard-coded in the page-fault decoder: left alone)
         movable = [i for i in used if i not in REAL_FAULT_IDS]
         free = [i for i in range(0x50000000, 0x50000000 + 4 * len(movable) * 3, 4) if i not in bundled]
@@ -199,6 +219,7 @@ def run(ctx):
     res.require('table_texts_compared', 50)
     res.require('reduced_tables_checked', 5)
     res.require('reassigned_tables_checked', 5)
+    res.require('in_place_edits_checked', 5)
     return res
 
 
